@@ -104,7 +104,7 @@ def gen_header(rng, tier, ctx):
     for base in bases:
         cases.append(list(base))
         for off in range(12, len(base)):                     # every offset after the checksum field
-            vals = range(256) if (big and len(base) <= 160) else [rng.randrange(256) for _ in range(2 if big else 1)]
+            vals = range(256) if (big and len(base) <= 113) else [rng.randrange(256) for _ in range(2 if big else 1)]
             for v in vals:
                 if v != base[off]:
                     m = list(base)
